@@ -46,7 +46,8 @@ ReplyWhy(d, m, e) ==
   IF m.uri \notin DOMAIN d THEN ""                                  \* UnknownDocReply: result or error
   ELSE LET doc == d[m.uri]
            k   == RespIdx(doc.text, m.l, m.c)
-       IN IF k = AnyIdx THEN ""                                      \* not a Required position: any reply
+       IN IF k = AnyIdx /\ (~e.ok \/ m.op = "hover") THEN ""       \* not a Required position: any reply,
+                                                                     \* but a completion result must be the completion at SOME boundary
           ELSE IF ~e.ok THEN "error-reply-on-known-document"
           ELSE IF m.op = "hover"
                THEN LET w == HoverExpect(doc.text, doc.errs, m.l, m.c)
@@ -57,7 +58,8 @@ ReplyWhy(d, m, e) ==
                ELSE IF e.cls # "items" THEN "completion-malformed"
                ELSE IF CompletionOK(doc.text, m.at, m.l, m.c, e.cmp) THEN ""
                ELSE IF CRLFLineStartT(Expand(doc.text), PosTab(Expand(doc.text)), m.l, m.c)
-                    THEN "crlf-linestart:completion" ELSE "completion"
+                    THEN "crlf-linestart:completion"
+               ELSE IF k = AnyIdx THEN "completion-at-normalised-position" ELSE "completion"
 
 TInit == tr \in 1..Len(Traces) /\ pos = 0 /\ stuck = "" /\ lastPub = <<>> /\ docs = <<>> /\ inflight = <<>> /\ owed = {} /\ wire = <<>> /\ sent = 0
 
